@@ -20,7 +20,7 @@ import lib
 COQ_TARGETS = ["theories/Model/GraphEq.vo", "theories/Proofs/GraphLemmas.vo", "theories/Proofs/GraphTermination.vo",
                "theories/Proofs/TopoLemmas.vo"]
 THEOREMS = ["C09_terminates", "C09_order", "C09_flags", "C09_string_alias", "C09_denotes",
-            "C09_refuted_nested", "C09_input_forms"]
+            "C09_input_forms"]
 FINDINGS = os.path.join(lib.VERIF, "findings.d", "C09.json")
 
 
